@@ -94,6 +94,11 @@ structure Cfg where
   scenario receives the manager's base dictionary object itself (false: `setdefault(key, base)`), which then is
   one object for the manager and all such scenarios. -/
   mergeOwnsDict : Bool
+  /-- `add_scenarios` for a scenario name that is already registered builds a NEW clone of the base model (true; the
+  tree: `get_cloned_model(self.model)` on every registration), or hands the new scenario object the clone the old one
+  had, after `reset_cache()` only (false): what earlier runs / steps wrote into that clone — equation overrides,
+  points, run specs — survives a re-registration that no longer lists it. -/
+  reregFreshClone : Bool
 deriving DecidableEq, Repr
 
 /-- The base model as built by the user. -/
@@ -182,6 +187,24 @@ def configureScn (st : State) (i : Nat) (s : Scn) (d : Dict) : State :=
 def simulate (st : State) (s : Scn) (t : Option Nat) : State :=
   { st with hm := updFn st.hm s.ref (st.hm s.ref ++ [(effOf st s, t)]) }
 
+/-- the clone a re-registration would reuse (defective mechanism only) -/
+def reuseOf (c : Cfg) (st : State) (i : Nat) : Option Scn := if c.reregFreshClone then none else st.scns i
+
+/-- re-registration on the previous clone: memo cleared (`reset_cache`), equations / points / run specs of the model
+object as they are; `SimulationScenario.__init__` takes its default run specs from that model and merges listed
+points into a new table built from the clone's current one. -/
+def addReuse (c : Cfg) (st : State) (i m : Nat) (d : Dict) (bc bp : Store) (old : Scn) : State :=
+  let consts := Store.fill d.consts bc
+  let pts := Store.fill d.pts bp
+  let shC := !c.mergeOwnsDict && d.consts.isEmpty && !bc.isEmpty
+  let shP := !c.mergeOwnsDict && d.pts.isEmpty && !bp.isEmpty
+  let s : Scn := { mgr := m, consts := consts, pts := pts, rs := old.mrs.override d, mrs := old.mrs, live := false,
+                   ref := old.ref, ptsRef := if pts.isEmpty then old.ptsRef else old.ref, elRef := old.elRef,
+                   cShared := shC, pShared := shP }
+  { st with scns := updFn st.scns i (some s)
+            hm := updFn st.hm old.ref []
+            hp := if pts.isEmpty then st.hp else updFn st.hp old.ref (Store.update (st.hp old.ptsRef) pts) }
+
 def step (c : Cfg) (b : Base) (st : State) : Op → State
   | .regMgr m bc bp =>
       match st.mgrs m with
@@ -191,6 +214,9 @@ def step (c : Cfg) (b : Base) (st : State) : Op → State
       match st.mgrs m with
       | none => st                                        -- "Scenario manager not found"
       | some (bc, bp) =>
+        match reuseOf c st i with
+        | some old => addReuse c st i m d bc bp old
+        | none =>
           let consts := Store.fill d.consts bc
           let pts := Store.fill d.pts bp
           let r := st.next
